@@ -240,6 +240,25 @@ func init() {
 	specFns["numcont"] = func(e *Env, a []TV, n *ast.CallExpr) TV {
 		return TV{V: App("spec.numcont", BoolSort, argTerm(e, a[0], n), argByte(e, a[1], n))}
 	}
+	// litat(data, i, "w"): the bytes of w occur in data at index i (and fit)
+	specFns["litat"] = func(e *Env, a []TV, n *ast.CallExpr) TV {
+		sv, ok := a[0].V.(*SliceV)
+		if !ok {
+			e.fail("litat: slice expected")
+		}
+		arr := e.ex.load(e.st, Place{Root: sv.Reg}).(*ArrayV).Arr
+		i := Resize(argTerm(e, a[1], n), 64, true)
+		bl, ok := n.Args[2].(*ast.BasicLit)
+		if !ok {
+			e.fail("litat: string literal expected")
+		}
+		w, _ := strconv.Unquote(bl.Value)
+		cs := []*Term{Sle(I64(0), i), Sle(Add(i, I64(int64(len(w)))), sv.Len)}
+		for k := 0; k < len(w); k++ {
+			cs = append(cs, Eq(Select(arr, Add(sv.Off, Add(i, I64(int64(k))))), BVI(8, int64(w[k]))))
+		}
+		return TV{V: And(cs...)}
+	}
 	// digrun(data, k): index of the first non-digit byte at or after k (len if none)
 	specFns["digrun"] = func(e *Env, a []TV, n *ast.CallExpr) TV {
 		arr, off, ln := sliceArgs(e, a[0], n)
